@@ -306,6 +306,18 @@ func (t *StreamUnderlay) onOpenSessionRequest(seg *segment) error {
 	if !t.deliverSegmentToSession(session, seg) {
 		return fmt.Errorf("failed to deliver open session request for session %d", sessionID)
 	}
+	// Wait until the session accepts or refuses the open session request,
+	// so a refused session is never returned by Accept().
+	select {
+	case <-session.openDecided:
+		if session.openRefused.Load() {
+			return nil
+		}
+	case <-session.closedChan:
+		return nil
+	case <-t.done:
+		return io.ErrClosedPipe
+	}
 	select {
 	case t.readySessions <- session:
 	case <-t.done:
